@@ -37,6 +37,10 @@ def extract(ctx):
             ctx.gen_fail("C11", "unparsable event field %r" % part); return None
         ev.append((mm.group(1), mm.group(2)))
     f["event"] = ev
+    # the watcher selects the event by its index among the contract's event declarations
+    decl = re.findall(r"^\s*event\s+(\w+)\s*\(", gov, re.M)
+    f["eventOrder"] = decl
+    f["eventIndex"] = decl.index("WormholeMessage") if "WormholeMessage" in decl else len(decl)
     m = re.search(r"emit\s+WormholeMessage\s*\(([^\n]*)\)\s*\n", gov)
     if not m:
         ctx.gen_fail("C11", "emit WormholeMessage(...) not found in " + GOV); return None
@@ -56,6 +60,11 @@ def extract(ctx):
     if not mp:
         ctx.gen_fail("C11", "`let payload = ...` not found in attestToken"); return None
     comps = [c.strip() for c in mp.group(1).replace("\n", " ").split("++")]
+    # a component that is itself a local `let x = a ++ b ...` (one line) is expanded, so that building a part of the payload in a
+    # helper variable first reads the same
+    env = {mm.group(1): mm.group(2) for mm in re.finditer(r"let\s+(\w+)\s*=\s*([^\n]*?\+\+[^\n]*?)\s*\n", body) if not mm.group(2).rstrip().endswith("++") and mm.group(1) != "payload"}
+    for _ in range(4):
+        comps = [x.strip() for c in comps for x in (env[c].split("++") if c in env else [c])]
     tbc = vlib.read_contract(TBC)
     enc = []
     for c in comps:
@@ -102,7 +111,7 @@ def extract(ctx):
     f["handlerSize"] = int(mm.group(1))
 
     go = vlib.read(os.path.join(vlib.REPO, GO))
-    for name in ("WormholeMessageFieldSize", "TransferTokenPayloadId", "AttestTokenPayloadId", "AttestTokenPayloadLength", "HashLength"):
+    for name in ("WormholeMessageFieldSize", "TransferTokenPayloadId", "AttestTokenPayloadId", "AttestTokenPayloadLength", "HashLength", "WormholeMessageEventIndex"):
         mm = re.search(r"^const %s\s*=\s*(\d+)\s*$" % name, go, re.M)
         if not mm:
             ctx.gen_fail("C11", "const %s not found in %s" % (name, GO)); return None
@@ -139,8 +148,9 @@ def gen(ctx):
     src += "def handlerSlices : List (String × Nat × Nat) := [%s]\n" % ", ".join('("%s", %d, %d)' % x for x in f["handlerSlices"])
     src += "def handlerSize : Nat := %d\n\n" % f["handlerSize"]
     src += "/-- utils.go constants and parseAttestToken slices (tokenId, chain, symbol, name, decimals) -/\n"
-    for name in ("WormholeMessageFieldSize", "TransferTokenPayloadId", "AttestTokenPayloadId", "AttestTokenPayloadLength", "HashLength"):
+    for name in ("WormholeMessageFieldSize", "TransferTokenPayloadId", "AttestTokenPayloadId", "AttestTokenPayloadLength", "HashLength", "WormholeMessageEventIndex"):
         src += "def go%s : Nat := %d\n" % (name, f["go" + name])
+    src += "/-- position of `event WormholeMessage` among the event declarations of governance.ral (= the event index a node reports) -/\ndef eventIndex : Nat := %d\n" % f["eventIndex"]
     src += "def goSlices : List (Nat × Nat) := [%s]\n" % ", ".join("(%d, %d)" % x for x in f["goSlices"])
     src += "def goChainIDAlephium : Nat := %d\n" % f["goChainIDAlephium"]
     src += "\nend Whv.Gen.C11\n"
@@ -152,8 +162,32 @@ def classify(clause, case, verdict):
     return clause
 
 
+def contract_deviations(ctx, f, pid="C11"):
+    """When the contract sources deviate from what the node decodes, name the deviation as the failing input (the Gen-based theorems
+    break as well). Used by C11 and - for the event index - by C09."""
+    if f is None:
+        return
+    if f["eventIndex"] != f["goWormholeMessageEventIndex"]:
+        ctx.spec_violations.append({
+            "key": "wormhole-message-event-index-mismatch",
+            "what": ("governance.ral declares its events in the order %s: WormholeMessage has event index %d, the watcher selects index %d "
+                     "(WormholeMessageEventIndex): every token-bridge message is rejected on both paths" % (f["eventOrder"], f["eventIndex"], f["goWormholeMessageEventIndex"])),
+            "replay": {"eventOrder": f["eventOrder"], "contractIndex": f["eventIndex"], "goIndex": f["goWormholeMessageEventIndex"],
+                       "failing_input": "any message published through governance.publishWormholeMessage after this contract version is deployed"}})
+    if pid != "C11":
+        return
+    names = [n for n, _, _ in f["attestEncoder"]]
+    want = ["payloadId", "localTokenId", "localChainId", "decimals", "symbol", "name"]
+    if names != want and sorted(names) == sorted(want):
+        ctx.spec_violations.append({
+            "key": "contract-attestation-field-order",
+            "what": "token_bridge.ral attestToken builds its payload as %s, the node (and attest_token_handler.ral) decode %s: a token whose fields differ comes out with them exchanged" % (names, want),
+            "replay": {"contractOrder": names, "decodedOrder": want,
+                       "failing_input": "attestToken for a token whose symbol differs from its name (e.g. symbol 'USDT', name 'Tether USD')"}})
+
+
 def run(ctx):
-    gen(ctx)
+    contract_deviations(ctx, gen(ctx))
     ctx.prove(families=("alphutil", "alphwatch"))
     ov = ctx.overlay(OVERLAY, p2p_stub=True)
     if ov is None:
